@@ -88,4 +88,16 @@ def check(ctx: Ctx) -> str:
     s = ast.unparse(dp.node)
     ctx.check("(x.encode(encoding, errors) for x in self)" in s and "iterable = self" in s, "dump:iterable", "environment:TemplateStream.dump", "items written", "dump must write every item of the stream (encoded if requested)", dp.loc())
     ctx.check("real_fp.writelines(iterable)" in s and "for item in iterable:" in s and "real_fp.write(item)" in s, "dump:write", "environment:TemplateStream.dump", "write paths", "both write paths (writelines / write loop) must consume the whole iterable", dp.loc())
+    # str(module) joins the pieces kept in the module's private `_body_stream`; exported
+    # template names are copied onto the same object, so only the export rule (no name with a
+    # leading underscore is ever exported) keeps them from replacing it
+    from . import c05
+
+    ctx.run_imported("C05", {"R3"}, c05.check)
+    tm = repo.func("environment:TemplateModule.__init__")
+    stores = [a for a in ast.walk(tm.node) if isinstance(a, ast.Assign) and ast.unparse(a.targets[0]).startswith("self.") and not ast.unparse(a.targets[0]).startswith("self._")]
+    ctx.rule("R4", "TemplateModule keeps its own state in underscore attributes (exported names never start with one): str()/html() read `_body_stream`")
+    ctx.check(not stores, "module:private-state", "environment:TemplateModule.__init__", f"public attributes {[ast.unparse(a.targets[0]) for a in stores]}", "the module object's own attributes must be private: a template variable of the same name would replace them", tm.loc())
+    ts = repo.func("environment:TemplateModule.__str__")
+    ctx.check("concat(self._body_stream)" in ast.unparse(ts.node), "module:str", "environment:TemplateModule.__str__", "joins the body stream", "str(module) must join the rendered pieces", ts.loc())
     return __doc__ or ""
